@@ -47,15 +47,14 @@ T = {
          "no header when none remain), C12_codings_listed (tokenising the rewritten header gives back exactly the remaining codings, in order), C12_no_trailer_header, C12_other_headers (originals then non-framing trailer fields, order and values kept), C12_trailer_framing_fields_ignored, "
          "C12_parser_stores_rewrite; list lemmas over the header-collection model (Proofs/HeaderAlgebra.v).",
          "set_header's in-place algorithm in rhymessage is modelled at specification level (first match keeps its position and name); the run compares the final header list order-sensitively."),
- "C13": ("Theorem C13_decode_inverts_every_stack: for every stack over {gzip, zlib-deflate, raw-deflate} and every spelling the crate's tokeniser maps to those names, decode_body "
-         "returns the original, given three stated facts about the stream decoders (each inverts its encoders; zlib streams start with a valid zlib header; encoder-produced raw streams do not); "
-         "induction on the coding list, for ANY decoders. With the executable model of flate2/miniz_oxide (Model/Inflate.v: raw inflate with miniz's table rules, zlib, gzip incl. all header options, "
-         "CRC-32, Adler-32) in place of the parameters, C13_stored_encoders_inverted proves the three facts -- and hence the inversion of every stack over every body -- for the stored-block encoders "
-         "(DEFLATE level 0, any partition into blocks, bare / zlib with any valid header / gzip with any header the parser accepts), with no hypothesis left. Huffman-coded blocks: "
-         "C13_canonical_code_decodes (for EVERY list of code lengths the canonical code of a symbol decodes to it) and C13_fixed_block_inverted (a final fixed-code block with any literals and matches, "
-         "specified by its bits, decodes to RFC 1951's byte-at-a-time copy semantics; C13_fast_copy_is_rfc_copy) are proved; for dynamic-header blocks and multi-block Huffman streams "
-         "the facts stay hypotheses, sampled: levels 0-9, all strategies, empty/tiny/random/repetitive/pre-compressed bodies up to 1.1 MB, depth <= 3, gzip header options, decode-after-failed-decode histories.",
-         "PARTIAL for dynamic-header Huffman blocks: no encoder of the block header is modelled. The inflate model is tied to the real flate2 (called directly, not through rhymuweb) on every stream of every run (counts in the evidence) and by tools/fuzz_inflate.py (410k streams incl. hand-assembled dynamic blocks, 0 disagreements)."),
+ "C13": ("Theorem C13_every_rfc_encoding_inverted: for every body, every stack of gzip (RFC 1952, any member header the parser accepts), zlib (RFC 1950, any valid header) and bare deflate codings "
+         "produced by ANY conforming encoder -- any sequence of stored, fixed-code and dynamic-header blocks, any HLIT/HDIST/HCLEN, any code-length code and run-length coding of the lengths, any pair of "
+         "tables the decoder accepts, any literals and matches, any padding -- and every header list whose Content-Encoding tokenises to those codings, decode_body over the executable model of "
+         "flate2/miniz_oxide (Model/Inflate.v) returns exactly the body: no hypothesis about the decoders is left. Proved from C13_deflate_stream_inverted (every DEFLATE stream decodes to its RFC 1951 "
+         "meaning; induction over blocks), C13_dynamic_block_inverted, C13_fixed_block_inverted, C13_accepted_table_decodes (canonical Huffman decoding is correct for every table passing the decoder's "
+         "Kraft check), C13_fast_copy_is_rfc_copy, and the glue theorem C13_decode_inverts_every_stack (any decoders). The model of flate2 is compared with the real library (called directly) on every stream "
+         "of every run: levels 0-9, all strategies, empty/tiny/random/repetitive/pre-compressed bodies up to 1.1 MB, depth <= 3, gzip header options, decode-after-failed-decode histories.",
+         "Relative to (1) the hand-written model of flate2, tied to the library by sampling (every stream of every run; tools/fuzz_inflate.py: 410k streams incl. hand-assembled dynamic blocks, 0 disagreements), and (2) the reading of RFC 1951 written down in Ser / block_ok / block_apply (Proofs/DeflateStream.v)."),
  "C14": ("Theorems C14_success (kept ++ undone split of the token list, body = undo of exactly the undone suffix, one Content-Encoding header with the kept tokens joined by ', ' or none, "
          "single Content-Length = |body|, all other headers unchanged in order), C14_failure_atomic, C14_succeeds_when_undoable; for every behaviour of the three decoders (parameters).", ""),
  "C15": ("For ANY stream decoders (parameters): C15_outer_decoder_error_is_failure, C15_truncation_fails, C15_success_is_full_decoder_output, C15_zlib_never_falls_back -- the crate's glue cannot bypass "
